@@ -198,11 +198,14 @@ def handle : Handler := fun op inp impl => do
     let err ← fBool impl "err"
     let gone ← fBool impl "roGone"
     let eventWoke ← fBool impl "eventWoke"
+    -- a negative RequeueAfter: the reconcile computed a recheck time that has already passed; controller-runtime drops it
+    let negRequeue := match jopt impl "negRequeueAfter" with | some (.bool b) => b | _ => false
     let woken := requeue || err || eventWoke
     let cls := roAwaits w
     let modelWoke := match RV.RolloutSM.reconcile w with | .val r => (roWakes w r).ro | .panic => false
     let clsTag := match cls with | some c => s!"{repr c}" | none => "none"
-    return { holds := [("C07.no_lost_wakeup", roStepOk w woken gone), ("C07.wake_model_sound", !modelWoke || woken || gone)],
+    return { holds := [("C07.no_lost_wakeup", roStepOk w woken gone), ("C07.wake_model_sound", !modelWoke || woken || gone),
+                       ("C07.requeue_after_not_negative", !negRequeue)],
              tags := ["step:ro", if woken then "step:woken" else if gone then "step:gone" else s!"step:rests={clsTag}"] ++
                (if requeue then ["woke:requeue"] else []) ++ (if err then ["woke:err"] else []) ++ (if eventWoke then ["woke:event"] else []) ++
                (if roIllFormed w then ["step:ill-formed"] else []) ++
